@@ -247,6 +247,7 @@ public:
         out().line("\"e\":\"Fallback\"");
     }
     void on_deadlock(const std::vector<vs::ThreadView> &tv) override {
+        finish_pending_step(tv);
         std::string b = "[";
         bool first = true;
         for (auto &v : tv)
